@@ -20,6 +20,7 @@ def cases(tier):
     r = rng("img-suite")
     quick = tier != "thorough"
     out = list(G.fixtures())
+    out += G.extremes(r)
     n_valid = {"hrs": 12, "pix": 8, "max": 16, "mge": 3, "rat": 2, "cm3": 3, "vef": 4}
     n_pref = 10 if quick else 48
     n_corr = 12 if quick else 64
